@@ -204,7 +204,7 @@ func init() {
 	explore.Register(&explore.Check{
 		ID:         "C03",
 		Level:      "model_checking",
-		ShardDepth: 3,
+		ShardDepth: 5,
 		Body:       body,
 		Rule: "10 declarations (positional layouts none/1/2/1+rest/int, required or optional or nested executable commands with own positionals) x all 8 subsets of {PassDoubleDash, PassAfterNonOption, IgnoreUnknown} " +
 			"x {struct tags | API+Execute | API+CommandHandler} x every sequence of <= 4 (quick) / <= 5 (thorough) units over 16 units ('', -, --, ---x, unknown short/long/cluster, repeated plain words, known flag, option+value, a bool-kinded Unmarshaler option + value, a token that is a quoted Go literal, command words, a number), plus beyond that bound [w, unit, unit' x {7,8,9,17}]; " +
@@ -212,7 +212,7 @@ func init() {
 		Assumptions:  []string{"only vectors that both the model and the parser accept are compared (rejections belong to C04/C07/C08)"},
 		RequiredHits: []string{"compared", "nonempty-rest", "class:terminator", "class:ignored-unknown", "class:pass-after-non-option", "exec-args-compared"},
 		Bound:        [2]string{"all unit sequences of length <= 4", "all unit sequences of length <= 5"},
-		BudgetS:      [2]int{100, 1500},
+		BudgetS:      [2]int{170, 1500},
 	})
 }
 
